@@ -1,16 +1,222 @@
 /-
   C18 — a size-sealed export never lets a client change a file's size.
-  (property theorems only; helper lemmas live in Fbr/Lemmas/PtSeal.lean)
+
+  Model: `Fbr.PtSeal` (requests OPEN / CREATE / WRITE / SETATTR / FALLOCATE / RELEASE of the
+  passthrough file system with `seal_size`, over a reference host with the laws "pwrite on an
+  O_APPEND descriptor writes at end-of-file", "open(O_TRUNC) truncates", the fallocate mode
+  table, ftruncate).  Specification: `Fbr.PtSealSpec` (`Beyond`, `Refused`, `Resolves`).
+  Helper lemmas: `Fbr.Lemmas.PtSeal`, `Fbr.Lemmas.PtSealIff`.  PROPERTY THEOREMS ONLY here.
+
+  The three defects recorded for this property (WRITE with O_APPEND, OPEN with O_TRUNC, CREATE
+  with O_TRUNC on an existing file) and the descriptor closed by a refused WRITE were repaired in
+  /repo (`fix:` commits 8e59410, 4f1b07b, 2186906, 098d060); the model follows the repaired code,
+  so the statements below are at full strength.  `*_would_break_*` theorems keep the witnesses:
+  they show on the same reference host that the pre-fix behaviour changed sizes.
 -/
-import Fbr.PtSeal
+import Fbr.Lemmas.PtSealIff
 
 namespace Fbr.Thm.C18
-open Fbr.PtSeal
+open Fbr.PtSeal Fbr.PtSealSpec Fbr.Lemmas.PtSeal
 
-/-- placeholder while the engine is brought up -/
-theorem sealed_setattr_size_refused (st : St) (file : Nat) (size : Nat) (m : Bool) (n : Nat)
-    (hx : st.host.size file = some n) :
-    (step { sealed := true } st (.setattr file none true size m)).ret = .error EPERM := by
-  simp [step, hx]
+/-- **Sealed sizes are invariant.**  With `seal_size` on, for every host, every handle table,
+    every history of requests (any flag words, offsets, lengths, fallocate modes, with or without
+    no_open) every file that exists keeps its size — in particular every pre-existing regular
+    file ends with the size it had. -/
+theorem sealed_sizes_invariant (cfg : Cfg) (hs : cfg.sealed = true) (st : St) (history : List Req)
+    (f n : Nat) (hf : st.host.size f = some n) :
+    (run cfg st history).host.size f = some n :=
+  run_keeps cfg hs history st f n hf
+
+/-- …and the same after every single request of the history (the harness's direct oracle). -/
+theorem sealed_sizes_invariant_every_prefix (cfg : Cfg) (hs : cfg.sealed = true) (st : St)
+    (history : List Req) (k : Nat) (f n : Nat) (hf : st.host.size f = some n) :
+    (run cfg st (history.take k)).host.size f = some n :=
+  run_keeps cfg hs (history.take k) st f n hf
+
+/-- **Refused iff it would change a size.**  For a request that names an existing file/handle, the
+    sealed file system turns it down before any size-affecting host call exactly when the request
+    reaches beyond the current end of the file (WRITE from the effective start — end-of-file for
+    a descriptor in append mode — , FALLOCATE allocate/punch/zero past the end), is a size-setting
+    request (SETATTR size, truncating OPEN, truncating CREATE of an existing file, FALLOCATE
+    collapse/insert) or carries an invalid fallocate mode. -/
+theorem refused_iff_would_change (cfg : Cfg) (st : St) (r : Req) (hok : HostOk st.host)
+    (hres : Resolves cfg st r) :
+    Refused (step { cfg with sealed := true } st r) ↔ Beyond cfg st r := by
+  cases r with
+  | opn file fl =>
+    obtain ⟨hno, hex⟩ := hres
+    show Refused (stepOpen _ st file fl) ↔ fl.trunc = true
+    cases ht : fl.trunc with
+    | true => exact ⟨fun _ => rfl, fun _ => stepOpen_beyond cfg st file fl hno ht⟩
+    | false =>
+      have ⟨hsame, hnr⟩ := stepOpen_within cfg st file fl hno hex ht
+      exact ⟨fun h => absurd ((refused_of_same _ _ hsame).mp h) hnr, fun h => by cases h⟩
+  | create file fl =>
+    show Refused (stepCreate _ st file fl) ↔ _
+    by_cases hb : (st.host.size file).isSome = true ∧ fl.excl = false ∧ fl.trunc = true
+    · exact ⟨fun _ => hb, fun _ => stepCreate_beyond cfg st file fl hb.1 hb.2.1 hb.2.2⟩
+    · have ⟨hsame, hnr⟩ := stepCreate_within cfg st file fl hres hb
+      exact ⟨fun h => absurd ((refused_of_same _ _ hsame).mp h) hnr, fun h => absurd h hb⟩
+  | write file h fl len off =>
+    obtain ⟨hr, hex⟩ := hres
+    obtain ⟨hd, hhd⟩ := Option.isSome_iff_exists.mp hr
+    obtain ⟨sz, hsz⟩ := Option.isSome_iff_exists.mp hex
+    show Refused (stepWrite _ st file h fl len off) ↔ _
+    by_cases hb : (if appendAfter hd fl then sz else off) + len > sz
+    · exact ⟨fun _ => ⟨hd, sz, hhd, hsz, hb⟩, fun _ => stepWrite_beyond cfg st file h fl len off hd sz hhd hsz hb⟩
+    · have ⟨hsame, hnr⟩ := stepWrite_within cfg st file h fl len off hd sz hhd hsz (hok _ _ hsz) (by omega)
+      refine ⟨fun h => absurd ((refused_of_same _ _ hsame).mp h) hnr, ?_⟩
+      rintro ⟨hd', sz', h1, h2, h3⟩
+      rw [hhd] at h1; cases h1
+      rw [hsz] at h2; cases h2
+      exact absurd h3 hb
+  | setattr file h ss size sm =>
+    obtain ⟨hex, hh⟩ := hres
+    show Refused (stepSetattr _ st file h ss size sm) ↔ ss = true
+    cases ss with
+    | true => exact ⟨fun _ => rfl, fun _ => stepSetattr_beyond cfg st file h size sm hex hh⟩
+    | false =>
+      have ⟨hsame, hnr⟩ := stepSetattr_within cfg st file h size sm hex hh
+      exact ⟨fun h => absurd ((refused_of_same _ _ hsame).mp h) hnr, fun h => by cases h⟩
+  | fallocate file h mode off len =>
+    obtain ⟨hr, hex⟩ := hres
+    obtain ⟨hd, hhd⟩ := Option.isSome_iff_exists.mp hr
+    obtain ⟨sz, hsz⟩ := Option.isSome_iff_exists.mp hex
+    show Refused (stepFallocate _ st file h mode off len) ↔ _
+    by_cases hb : ¬ (fallocOp mode = 0 ∨ fallocOp mode = FL_PUNCH_HOLE ∨ fallocOp mode = FL_ZERO) ∨ off + len > sz
+    · exact ⟨fun _ => ⟨sz, hsz, hb⟩, fun _ => stepFallocate_beyond cfg st file h mode off len hd sz hhd hsz hb⟩
+    · have hop : fallocOp mode = 0 ∨ fallocOp mode = FL_PUNCH_HOLE ∨ fallocOp mode = FL_ZERO := by
+        by_cases hop : fallocOp mode = 0 ∨ fallocOp mode = FL_PUNCH_HOLE ∨ fallocOp mode = FL_ZERO
+        · exact hop
+        · exact absurd (Or.inl hop) hb
+      have hle : off + len ≤ sz := by
+        by_cases hle : off + len ≤ sz
+        · exact hle
+        · exact absurd (Or.inr (by omega)) hb
+      have ⟨hsame, hnr⟩ := stepFallocate_within cfg st file h mode off len hd sz hhd hsz (hok _ _ hsz) hop hle
+      refine ⟨fun h => absurd ((refused_of_same _ _ hsame).mp h) hnr, ?_⟩
+      rintro ⟨sz', h2, h3⟩
+      rw [hsz] at h2; cases h2
+      exact absurd h3 hb
+  | release file h =>
+    obtain ⟨hno, hr⟩ := hres
+    show Refused (stepRelease _ st file h) ↔ False
+    have ⟨hsame, hnr⟩ := stepRelease_within cfg st file h hno hr
+    exact ⟨fun h => absurd ((refused_of_same _ _ hsame).mp h) hnr, fun h => by cases h⟩
+
+/-- **Within the size, sealing is invisible.**  A request that does not reach beyond the current
+    size (and sets no size) gets the same answer, leaves the same host sizes and handle table,
+    and makes the same host calls with sealing as without — apart from the `fstat`/`F_GETFL`
+    probes the seal check itself needs. -/
+theorem within_size_unaffected (cfg : Cfg) (st : St) (r : Req) (hok : HostOk st.host)
+    (hres : Resolves cfg st r) (hb : ¬ Beyond cfg st r) :
+    Same (step { cfg with sealed := true } st r) (step { cfg with sealed := false } st r) := by
+  cases r with
+  | opn file fl =>
+    obtain ⟨hno, hex⟩ := hres
+    have ht : fl.trunc = false := by
+      cases h : fl.trunc
+      · rfl
+      · exact absurd h hb
+    exact (stepOpen_within cfg st file fl hno hex ht).1
+  | create file fl => exact (stepCreate_within cfg st file fl hres hb).1
+  | write file h fl len off =>
+    obtain ⟨hr, hex⟩ := hres
+    obtain ⟨hd, hhd⟩ := Option.isSome_iff_exists.mp hr
+    obtain ⟨sz, hsz⟩ := Option.isSome_iff_exists.mp hex
+    have hle : (if appendAfter hd fl then sz else off) + len ≤ sz := by
+      by_cases hle : (if appendAfter hd fl then sz else off) + len ≤ sz
+      · exact hle
+      · exact absurd ⟨hd, sz, hhd, hsz, by omega⟩ hb
+    exact (stepWrite_within cfg st file h fl len off hd sz hhd hsz (hok _ _ hsz) hle).1
+  | setattr file h ss size sm =>
+    obtain ⟨hex, hh⟩ := hres
+    cases ss with
+    | true => exact absurd rfl hb
+    | false => exact (stepSetattr_within cfg st file h size sm hex hh).1
+  | fallocate file h mode off len =>
+    obtain ⟨hr, hex⟩ := hres
+    obtain ⟨hd, hhd⟩ := Option.isSome_iff_exists.mp hr
+    obtain ⟨sz, hsz⟩ := Option.isSome_iff_exists.mp hex
+    have hop : fallocOp mode = 0 ∨ fallocOp mode = FL_PUNCH_HOLE ∨ fallocOp mode = FL_ZERO := by
+      by_cases hop : fallocOp mode = 0 ∨ fallocOp mode = FL_PUNCH_HOLE ∨ fallocOp mode = FL_ZERO
+      · exact hop
+      · exact absurd ⟨sz, hsz, Or.inl hop⟩ hb
+    have hle : off + len ≤ sz := by
+      by_cases hle : off + len ≤ sz
+      · exact hle
+      · exact absurd ⟨sz, hsz, Or.inr (by omega)⟩ hb
+    exact (stepFallocate_within cfg st file h mode off len hd sz hhd hsz (hok _ _ hsz) hop hle).1
+  | release file h =>
+    obtain ⟨hno, hr⟩ := hres
+    exact (stepRelease_within cfg st file h hno hr).1
+
+/-- **A refused request changes nothing on the host** (so "refused" really protects the size). -/
+theorem refused_changes_nothing (cfg : Cfg) (hs : cfg.sealed = true) (st : St) (r : Req) (f n : Nat)
+    (hf : st.host.size f = some n) : (step cfg st r).st.host.size f = some n :=
+  step_keeps cfg hs st r f n hf
+
+/-! ### the recorded defects, as facts about the same reference host
+
+  Before the fixes the seal check of WRITE compared `offset + size` with the file size even when
+  the descriptor was in append mode, and OPEN/CREATE passed `O_TRUNC` to the host.  The host
+  calls the old code made change the size on the reference host: -/
+
+/-- witness of F10/WRITE: a 100-byte file, `pwrite(fd, 10 bytes, offset 0)` on an `O_APPEND`
+    descriptor — the old check (0 + 10 ≤ 100) passed, the host appends: 110 bytes -/
+theorem append_write_would_break_seal :
+    let H : Host := { size := fun f => if f = 0 then some 100 else none }
+    sealCheckWrite 100 0 10 = .ok () ∧
+    (hostPwrite H 0 { canWrite := true, append := true, direct := false } 10 0).1.size 0 = some 110 :=
+  ⟨rfl, rfl⟩
+
+/-- …and the repaired check, which starts at end-of-file for such a descriptor, refuses it -/
+theorem append_write_now_refused : sealCheckWrite 100 100 10 = .error EPERM := rfl
+
+/-- witness of F10/OPEN,CREATE: `openat(.., O_RDONLY | O_TRUNC)` truncates a 100-byte file -/
+theorem trunc_open_would_break_seal :
+    let H : Host := { size := fun f => if f = 0 then some 100 else none }
+    (hostOpen H 0 { acc := 0, trunc := true }).1.size 0 = some 0 :=
+  rfl
+
+/-! ### non-vacuity: concrete states satisfying the hypotheses, with non-trivial behaviour -/
+
+/-- a host with a 100-byte file 0 and a 4096-byte file 1 -/
+def exHost : Host := { size := fun f => if f = 0 then some 100 else if f = 1 then some 4096 else none }
+
+/-- a state with one read-write handle (1) on file 0 -/
+def exSt : St :=
+  { host := exHost, next := 2,
+    handles := fun h => if h = 1 then some { file := 0, fd := fdOf rdwr, stored := rdwr } else none }
+
+example : HostOk exHost := by
+  intro f n h
+  simp only [exHost] at h
+  split at h
+  · cases h; decide
+  · split at h
+    · cases h; decide
+    · cases h
+
+/-- an in-range WRITE resolves, is not beyond, and is performed (10 bytes written) -/
+example : Resolves {} exSt (.write 0 1 rdwr 10 90) ∧ ¬ Beyond {} exSt (.write 0 1 rdwr 10 90) ∧
+    (step {} exSt (.write 0 1 rdwr 10 90)).ret = .ok 10 := by
+  refine ⟨⟨rfl, rfl⟩, ?_, rfl⟩
+  rintro ⟨hd, sz, h1, h2, h3⟩
+  have : sz = 100 := by simpa [exSt, exHost] using h2.symm
+  subst this
+  have : hd = { file := 0, fd := fdOf rdwr, stored := rdwr } := by
+    simpa [resolve, exSt] using h1.symm
+  subst this
+  revert h3; decide
+
+/-- the same WRITE with O_APPEND in its flag word is beyond (it would start at byte 100) and is
+    refused with EPERM; a history of such requests leaves the size at 100 -/
+example : Beyond {} exSt (.write 0 1 { rdwr with append := true } 10 0) ∧
+    (step {} exSt (.write 0 1 { rdwr with append := true } 10 0)).ret = .error EPERM ∧
+    (run {} exSt [.write 0 1 { rdwr with append := true } 10 0, .opn 0 { acc := 0, trunc := true },
+                   .create 1 { acc := 1, trunc := true }, .fallocate 0 1 0 96 8,
+                   .setattr 1 none true 0 false]).host.size 0 = some 100 := by
+  refine ⟨⟨{ file := 0, fd := fdOf rdwr, stored := rdwr }, 100, rfl, rfl, by decide⟩, rfl, rfl⟩
 
 end Fbr.Thm.C18
